@@ -1,5 +1,6 @@
 import XmppModel.Model.StartTLS
 import XmppModel.Lemmas.StartTLS
+import XmppModel.Lemmas.StartTLSShape
 import XmppModel.Generated.C02
 /-!
 # C02 — a client asked to use STARTTLS never proceeds in clear text
@@ -64,6 +65,29 @@ theorem C02_ready_only_secured (cfg : Cfg) (st0 : Mask) (hc : Compliant cfg.toFC
   rw [hd] at this
   exact this
 
+/-- **At most one header and one request in clear text, then the switch, then nothing.**  The
+subsequence of the trace made of the writes that did not go through a TLS layer and of the layer
+switches (`isSig`) is a prefix of `[header, STARTTLS request, switch]`: nothing else is ever
+written in clear text, nothing is written in clear text after the switch, there is at most one
+switch, and it comes only after the request. -/
+theorem C02_clear_trace_shape (cfg : Cfg) (st0 : Mask) (hc : Compliant cfg.toFCfg st0)
+    (hs : has st0 Secure = false) (hr : has st0 Ready = false) (i : Input) (fuel : Nat) :
+    (run cfg st0 i fuel).1.filter isSig <+: [.wHdr false, .wStartTLS false, .switch] := by
+  rcases (run_shape cfg st0 hc hs hr i fuel).1 with h | h | h | h <;> rw [h]
+  · exact ⟨_, rfl⟩
+  · exact ⟨[.wStartTLS false, .switch], rfl⟩
+  · exact ⟨[.switch], rfl⟩
+  · exact ⟨[], rfl⟩
+
+/-- **A session only after the whole exchange.**  When `NewSession` returns a session, exactly
+the header and the STARTTLS request were written in clear text and the TLS layer was installed
+after them (in particular the RFC 7590 attempt was made even if STARTTLS was not advertised). -/
+theorem C02_session_after_full_exchange (cfg : Cfg) (st0 : Mask) (hc : Compliant cfg.toFCfg st0)
+    (hs : has st0 Secure = false) (hr : has st0 Ready = false) (i : Input) (fuel : Nat)
+    (st : Mask) (t hsk : Bool) (hd : (run cfg st0 i fuel).2 = .done st t hsk) :
+    (run cfg st0 i fuel).1.filter isSig = [.wHdr false, .wStartTLS false, .switch] :=
+  (run_shape cfg st0 hc hs hr i fuel).2 st t hsk hd
+
 /-- the two theorems above in the words of the property: it suffices that every other
 configured feature has `Secure` among its `Necessary` bits -/
 theorem C02_secure_features_suffice (cfg : Cfg) (st0 : Mask) (hs : has st0 Secure = false)
@@ -97,7 +121,7 @@ theorem C02_prebuffer_dropped (cfg : Cfg) (st0 : Mask) (i : Input) (fuel : Nat) 
   · intro h; cases h
   · intro h
     have hp : PB (init st0 i) := ⟨fun _ => rfl, fun e he => (by cases he)⟩
-    have := (loop_all PB_io PB_neg cfg fuel false (init st0 i) hp).2 _ (List.mem_reverse.1 h)
+    have := (loop_all PB_io PB_neg PB_install cfg fuel false (init st0 i) hp).2 _ (List.mem_reverse.1 h)
     cases this
 
 /-! ### The tee -/
